@@ -1,1 +1,115 @@
-(* placeholder: filled in below *)
+(* C07 — closing a subscope loses nothing recorded before it and harms no other scope.
+   Only the property theorems; proofs in Proof/RegistryP.v, Proof/Registry2P.v.
+
+   The system: any pool of threads, each either an application thread running a
+   program over {obtain a scope by (raw) key, record on the current scope, Close
+   it} or a reporting thread running report passes, one shard of the registry
+   with alias entries (a scope is registered under its sanitized key and under
+   every raw spelling it was requested with; [san] is an arbitrary idempotent
+   function on keys), under ANY schedule.  Steps are the atomic actions between
+   the yield points of scope_registry.go; locks are not modelled, so the
+   schedules considered are a superset of what the RWMutex admits.  Per scope
+   object: [applied] increments recorded, [delivered] handed to the reporter,
+   [closed_at] = [applied] when Close was called, [cleared] = dropped. *)
+From Coq Require Import ZArith List Bool Arith.
+From Tally Require Import Model.Registry Proof.RegistryP Proof.Registry2P.
+Import ListNotations.
+
+(* whenever a scope object has been dropped, everything recorded on it before
+   its Close was called has been delivered, and nothing was delivered twice *)
+Theorem C07_nothing_lost : forall san ths sched o,
+  (forall t, In t ths -> tpc t = Idle) ->
+  let s := run san (init ths) sched in
+  cleared (obj s o) = true ->
+  closed_at (obj s o) <= delivered (obj s o) /\ delivered (obj s o) <= applied (obj s o).
+Proof. exact nothing_lost. Qed.
+Print Assumptions C07_nothing_lost.
+
+(* in every reachable state no object has more delivered than recorded, and a
+   dropped object is a closed one *)
+Theorem C07_never_twice : forall san ths sched o,
+  (forall t, In t ths -> tpc t = Idle) ->
+  let s := run san (init ths) sched in
+  delivered (obj s o) + dropped (obj s o) <= applied (obj s o) /\
+  (cleared (obj s o) = true -> closed (obj s o) = true).
+Proof.
+  intros san ths sched o H s.
+  destruct (run_inv san sched _ (inv_init ths H)) as (Ho & _). destruct (Ho o) as (A & B & C & D).
+  split; [exact A|]. intro Hc. apply C, Hc.
+Qed.
+Print Assumptions C07_never_twice.
+
+(* closing a scope never affects another one: a scope that is not closed stays
+   registered under its sanitized key in every reachable state, whatever
+   spellings were requested, closed and removed in between; hence a later
+   complete pass reaches it and delivers what was recorded on it *)
+Theorem C07_live_scope_stays : forall san,
+  (forall k, san (san k) = san k) -> san 0 = 0 ->
+  forall ths sched o,
+  (forall t, In t ths -> tpc t = Idle) ->
+  let s := run san (init ths) sched in
+  o < length (objs s) -> closed (obj s o) = false ->
+  lookup (reg s) (skey (obj s o)) = Some o.
+Proof. exact live_scope_stays. Qed.
+Print Assumptions C07_live_scope_stays.
+
+(* a request that completes hands out a scope that is not closed: a scope
+   obtained after a Close for the same identity is a functional one *)
+Theorem C07_obtained_is_open : forall san s i ch t k,
+  Inv s -> nth_error (thr s) i = Some t -> tpc t = G5 k ->
+  let s' := step san s (i, ch) in
+  exists o t', nth_error (thr s') i = Some t' /\ tpc t' = Idle /\ cur t' = Some o /\ closed (obj s' o) = false.
+Proof. exact g5_returns_open. Qed.
+Print Assumptions C07_obtained_is_open.
+
+Theorem C07_found_is_open : forall san s i ch t k rest o,
+  nth_error (thr s) i = Some t -> tpc t = Idle -> prog t = AGet k :: rest ->
+  lookup (reg s) k = Some o -> closed (obj s o) = false ->
+  let s' := step san s (i, ch) in
+  exists t', nth_error (thr s') i = Some t' /\ tpc t' = Idle /\ cur t' = Some o /\ closed (obj s' o) = false.
+Proof. exact probe_returns_open. Qed.
+Print Assumptions C07_found_is_open.
+
+(* closing twice is harmless *)
+Theorem C07_double_close : forall x, close_obj (close_obj x) = close_obj x.
+Proof. exact close_twice. Qed.
+Print Assumptions C07_double_close.
+
+(* C07_closed_is_visited (a pass that begins after Close o and completes leaves
+   closed_at o <= delivered o) is NOT proved: the model lets a pass end at any
+   point (Go's map iteration guarantee "every entry present throughout the
+   iteration is produced" is not modelled).  What is proved instead is the step
+   that matters, as part of the invariant: a pass or a re-request that has read
+   closed = true for an object only removes and clears it after a report, i.e.
+   with closed_at <= delivered (okpc for P4/P5/G3/G3b/G4).  The harness checks
+   the end-to-end clause on the implementation after a complete final pass. *)
+Theorem C07_reported_before_dropped_partial : forall san ths sched t,
+  (forall t, In t ths -> tpc t = Idle) ->
+  let s := run san (init ths) sched in
+  In t (thr s) ->
+  match tpc t with
+  | G3 _ o | G3b _ o | G4 _ o | P4 _ _ o | P5 _ _ o =>
+      closed (obj s o) = true /\ closed_at (obj s o) <= delivered (obj s o)
+  | _ => True
+  end.
+Proof.
+  intros san ths sched t H s Hin.
+  destruct (run_inv san sched _ (inv_init ths H)) as (_ & Ht & _). specialize (Ht t Hin).
+  destruct (tpc t); cbn [okpc] in Ht; try exact I; tauto.
+Qed.
+Print Assumptions C07_reported_before_dropped_partial.
+
+(* non-vacuity: sanitizer merging keys 1 and 2; obtain 1, record, Close, obtain 2
+   (a new live scope), obtain 1 again (stale alias), record on both; a complete
+   pass; the closed object 1 delivered its increment, the live object 2 keeps
+   its registration and delivers everything *)
+Example C07_example :
+  let san := fun k => match k with 1 => 2 | _ => k end in
+  let th := {| tpc := Idle; cur := None;
+               prog := [AGet 1; AInc; AClose; AGet 2; AInc; AGet 1; AInc]; passes := 1 |} in
+  let s := run san (init [th])
+     (repeat (0, 0) 18 ++ [(0,2);(0,0);(0,0);(0,9)]) in
+  map (fun x => (applied x, delivered x, closed x)) (objs s) =
+    [(0, 0, false); (1, 1, true); (2, 2, false)] /\
+  lookup (reg s) 2 = Some 2.
+Proof. vm_compute. split; reflexivity. Qed.
